@@ -1110,10 +1110,17 @@ func (p *scionPacketProcessor) processEPIC() disposition {
 
 	isPenultimate := p.path.IsPenultimateHop()
 	isLast := p.path.IsLastHop()
+	// If a segment switch takes place here, the hop field that this router acts upon last is the
+	// first one of the next segment. That can be the penultimate hop of the path.
+	xoverToPenultimate := int(p.path.PathMeta.CurrHF)+1 == p.path.NumHops-2
 
 	disp := p.process()
 	if disp != pForward {
 		return disp
+	}
+	if p.effectiveXover && xoverToPenultimate {
+		// cachedMac is that of the hop field after the cross-over: the penultimate one.
+		isPenultimate = true
 	}
 
 	if isPenultimate || isLast {
